@@ -67,7 +67,8 @@ type fakeRT struct {
 	gates     map[string]chan struct{}
 	reached   map[string]chan struct{} // closed when a call starts waiting on the gate
 	attempted map[string]bool
-	multi     int // produce requests that were not exactly one topic / one partition, or whose acks / compression attribute
+	shapes    map[string]bool // "id:shape" of every record that reached the broker
+	multi     int             // produce requests that were not exactly one topic / one partition, or whose acks / compression attribute
 	// differ from the Writer's configuration (options must be passed through unchanged)
 	wantAcks  int16
 	wantAttrs int16
@@ -75,7 +76,7 @@ type fakeRT struct {
 
 func newFake() *fakeRT {
 	return &fakeRT{nparts: map[string]int{}, logs: map[tpKey][]string{}, faults: map[tpKey][]fault{},
-		metaGat: map[int]string{}, gates: map[string]chan struct{}{}, reached: map[string]chan struct{}{}, attempted: map[string]bool{}}
+		metaGat: map[int]string{}, gates: map[string]chan struct{}{}, reached: map[string]chan struct{}{}, attempted: map[string]bool{}, shapes: map[string]bool{}}
 }
 
 func (f *fakeRT) gate(name string) (g, r chan struct{}) {
@@ -170,22 +171,12 @@ func (f *fakeRT) produce(r *produce.Request) (kafka.Response, error) {
 		f.multi++
 		f.mu.Unlock()
 	}
-	var keys []string
-	rr := r.Topics[0].Partitions[0].RecordSet.Records
-	for rr != nil {
-		rec, err := rr.ReadRecord()
-		if err != nil {
-			break
-		}
-		k := ""
-		if rec.Key != nil {
-			b, _ := io.ReadAll(rec.Key)
-			k = string(b)
-		}
-		keys = append(keys, k)
-	}
+	keys, shapes := readRecs(r.Topics[0].Partitions[0].RecordSet.Records)
 	tp := tpKey{topic, part}
 	f.mu.Lock()
+	for i, k := range keys {
+		f.shapes[k+":"+shapes[i]] = true
+	}
 	var ft fault
 	if q := f.faults[tp]; len(q) > 0 {
 		ft = q[0]
@@ -269,6 +260,17 @@ type msgSpec struct {
 	topic string // message-level topic ("" = none)
 	part  int
 	hdr   bool
+	// shape: how Key and Value are given, two characters; "" = "kv".  First: k = Key holds the id, n = Key nil,
+	// e = Key empty but not nil (the id then stands at the start of Value).  Second: v = Value has bytes, n = Value nil
+	// (a tombstone), e = Value empty but not nil.
+	shape string
+}
+
+func (m msgSpec) shp() string {
+	if m.shape == "" {
+		return "kv"
+	}
+	return m.shape
 }
 
 type callSpec struct {
@@ -323,8 +325,17 @@ func (b *builder) mkMsg(size int, topic string, part int, hdr bool) msgSpec {
 }
 
 func (m msgSpec) message() kafka.Message {
-	n := m.size - 23 - len(m.key)
-	msg := kafka.Message{Key: []byte(m.key), Topic: m.topic}
+	sh := m.shp()
+	msg := kafka.Message{Topic: m.topic}
+	klen := 0
+	switch sh[0] {
+	case 'k':
+		msg.Key = []byte(m.key)
+		klen = len(m.key)
+	case 'e':
+		msg.Key = []byte{}
+	}
+	n := m.size - 23 - klen
 	if m.hdr {
 		// one header "h"="v": array len varint(1)=1 replaces the 1 byte of the empty array; + (1+1) + (1+1)
 		n -= 4
@@ -333,8 +344,81 @@ func (m msgSpec) message() kafka.Message {
 	if n < 0 {
 		panic("message spec too small")
 	}
-	msg.Value = make([]byte, n)
+	switch sh[1] {
+	case 'v':
+		msg.Value = make([]byte, n)
+		if sh[0] != 'k' { // the id travels in the value
+			if n < len(m.key)+1 {
+				panic("message spec too small for an id in the value")
+			}
+			copy(msg.Value, m.key)
+		}
+	case 'n':
+		if n != 0 || sh[0] != 'k' {
+			panic("bad spec: nil value needs size = 23 + len(key) and a key")
+		}
+	case 'e':
+		if n != 0 || sh[0] != 'k' {
+			panic("bad spec: empty value needs size = 23 + len(key) and a key")
+		}
+		msg.Value = []byte{}
+	}
 	return msg
+}
+
+// msgID recovers the id of a message / record from its key, or from the start of its value when the key is absent.
+func msgID(key, value []byte) string {
+	if len(key) > 0 {
+		return string(key)
+	}
+	for i, c := range value {
+		if c == 0 {
+			return string(value[:i])
+		}
+	}
+	return string(value)
+}
+
+// shaped gives a message spec the given shape, adjusting the size where the shape dictates it
+func (b *builder) shaped(m msgSpec, shape string) msgSpec {
+	m.shape = shape
+	m.hdr = false
+	switch {
+	case shape[1] == 'n' || shape[1] == 'e':
+		m.size = 23 + len(m.key)
+	case shape[0] != 'k' && m.size < 23+len(m.key)+1:
+		m.size = 23 + len(m.key) + 1
+	}
+	return m
+}
+
+// readRecs drains a record reader as the broker side: ids and shapes (null / empty / present key and value) of the records
+func readRecs(rr kafka.RecordReader) (ids, shapes []string) {
+	for rr != nil {
+		rec, err := rr.ReadRecord()
+		if err != nil {
+			break
+		}
+		var k, v []byte
+		sh := []byte("nn")
+		if rec.Key != nil {
+			k, _ = io.ReadAll(rec.Key)
+			sh[0] = 'e'
+			if len(k) > 0 {
+				sh[0] = 'k'
+			}
+		}
+		if rec.Value != nil {
+			v, _ = io.ReadAll(rec.Value)
+			sh[1] = 'e'
+			if len(v) > 0 {
+				sh[1] = 'v'
+			}
+		}
+		ids = append(ids, msgID(k, v))
+		shapes = append(shapes, string(sh))
+	}
+	return
 }
 
 func (b *builder) random(idx int, thorough bool) *scenario {
@@ -419,7 +503,23 @@ func (b *builder) random(idx int, thorough bool) *scenario {
 					}
 				}
 				part := r.Intn(sc.nparts[tname])
-				cs.msgs = append(cs.msgs, b.mkMsg(size, topic, part, r.Intn(12) == 0))
+				ms := b.mkMsg(size, topic, part, r.Intn(12) == 0)
+				if int64(size) <= sc.bb { // (an oversize message keeps its size)
+					switch x := r.Intn(40); {
+					case x < 4:
+						ms = b.shaped(ms, "kn") // tombstone
+					case x < 6:
+						ms = b.shaped(ms, "ke")
+					case x < 8:
+						ms = b.shaped(ms, "nv")
+					case x < 9:
+						ms = b.shaped(ms, "ev")
+					}
+					if int64(ms.size) > sc.bb {
+						ms.shape, ms.size = "", size
+					}
+				}
+				cs.msgs = append(cs.msgs, ms)
 			}
 			if !sc.async && r.Intn(25) == 0 {
 				cs.cancel = true
@@ -613,6 +713,35 @@ func (b *builder) trickleFamily(i int) *scenario {
 // lingerSlack: how late after BatchTimeout the timer goroutine may get to close the batch (scheduling, the partition
 // mutex) before the run counts it as "not closed BatchTimeout after it was opened"
 const lingerSlack = 120 * time.Millisecond
+
+// tombstones: batches in which a message with a nil Value (a tombstone) or a nil Key follows one that has both, and
+// the other way round; also empty-but-not-nil keys and values.  What reaches the broker must be the message as given:
+// null stays null, empty stays empty.  Odd scenarios run over the real Transport (the bytes on the wire).
+func (b *builder) tombstones(i int) *scenario {
+	r := b.r
+	sc := &scenario{name: "tomb" + strconv.Itoa(i), bs: 4 + r.Intn(5), bb: 1 << 20, ma: 2, async: i%3 == 2, compl: i%2 == 0, wtopic: "t",
+		timeout: 2 * time.Millisecond, nparts: map[string]int{"t": 1 + i%2}, faults: map[tpKey][]fault{}, closeAt: -1}
+	if i%2 == 1 {
+		sc.wire, sc.jitter, sc.jitterUs, sc.ma = 2, true, 300, 4
+	}
+	shapes := []string{"kv", "kn", "kv", "nv", "ke", "kn", "ev", "kv", "kn", "nv"}
+	var calls []callSpec
+	for c := 0; c < 2+r.Intn(2); c++ {
+		b.nextC++
+		cs := callSpec{id: b.nextC}
+		n := 4 + r.Intn(6)
+		off := r.Intn(len(shapes))
+		for k := 0; k < n; k++ {
+			cs.msgs = append(cs.msgs, b.shaped(b.mkMsg(40+r.Intn(10), "", r.Intn(sc.nparts["t"]), false), shapes[(off+k)%len(shapes)]))
+		}
+		calls = append(calls, cs)
+	}
+	sc.callers = [][]callSpec{calls}
+	if i%4 >= 2 {
+		sc.faults[tpKey{"t", 0}] = []fault{{kind: "lostack", code: 1}, {kind: "ok"}}
+	}
+	return sc
+}
 
 // tinyTimeout: BatchTimeout of microseconds with BatchSize 2 and odd message counts, while every batch creation is
 // stalled inside the partition mutex: the linger timer of a batch expires while writeMessages fills and queues it and
@@ -838,7 +967,7 @@ func run(sc *scenario, out *bufio.Writer) {
 	w := &kafka.Writer{
 		Addr: kafka.TCP("fake:9092"), Topic: sc.wtopic, Transport: f,
 		Balancer: kafka.BalancerFunc(func(m kafka.Message, parts ...int) int {
-			return parts[partOf[string(m.Key)]%len(parts)]
+			return parts[partOf[msgID(m.Key, m.Value)]%len(parts)]
 		}),
 		BatchSize: sc.bs, BatchBytes: sc.bb, BatchTimeout: sc.timeout, MaxAttempts: sc.ma,
 		WriteBackoffMin: 200 * time.Microsecond, WriteBackoffMax: time.Millisecond,
@@ -869,7 +998,7 @@ func run(sc *scenario, out *bufio.Writer) {
 		w.Completion = func(msgs []kafka.Message, err error) {
 			cbmu.Lock()
 			for _, m := range msgs {
-				cbs = append(cbs, string(m.Key)+" "+kafka.VerifErrCode(err))
+				cbs = append(cbs, msgID(m.Key, m.Value)+" "+kafka.VerifErrCode(err))
 			}
 			cbmu.Unlock()
 		}
@@ -1009,6 +1138,9 @@ func run(sc *scenario, out *bufio.Writer) {
 						t = "-"
 					}
 					fmt.Fprintf(&sb, "%s:%d:%s:%d", m.key, m.size, t, m.part)
+					if m.shp() != "kv" {
+						sb.WriteString(":" + m.shp())
+					}
 				}
 			}
 		}
@@ -1059,6 +1191,16 @@ func run(sc *scenario, out *bufio.Writer) {
 		early := earlyTimers
 		tmu.Unlock()
 		fmt.Fprintf(&sb, " | unsent %d | multi %d | stuck %d | stats %s | early %d", unsent, f.multi, b2i(stuck), stats, early)
+		// how key and value of every record arrived at the broker (null / empty / bytes), all attempts
+		var shp []string
+		for k := range f.shapes {
+			shp = append(shp, k)
+		}
+		sort.Strings(shp)
+		if len(shp) == 0 {
+			shp = []string{"-"}
+		}
+		sb.WriteString(" | shapes " + strings.Join(shp, ";"))
 		out.WriteString(sb.String())
 		out.WriteString("\n")
 		out.Flush()
@@ -1470,6 +1612,9 @@ func main() {
 	}
 	for i := 0; i < 8*extra && failedScenarios < 3; i++ {
 		run(b.defaults(i), out)
+	}
+	for i := 0; i < 8*extra && failedScenarios < 3; i++ {
+		run(b.tombstones(i), out)
 	}
 	for i := 0; i < 3+extra && failedScenarios < 3; i++ {
 		run(b.trickleFamily(i), out)
